@@ -92,7 +92,11 @@ impl<T: Types> RaftLogWriter<T> for RaftLog<T> {
         let log_id = if index == T::next_log_index(purged) {
             purged.cloned()
         } else {
-            let log_id = self.get_log_id(index - 1)?;
+            // `index == 0` has no previous entry to keep.
+            let prev_index = index.checked_sub(1).ok_or_else(|| {
+                RaftLogStateError::<T>::from(LogIndexNotFound::new(index))
+            })?;
+            let log_id = self.get_log_id(prev_index)?;
             Some(log_id)
         };
 
@@ -383,6 +387,9 @@ impl<T: Types> RaftLog<T> {
         to: u64,
     ) -> impl Iterator<Item = Result<(T::LogId, T::LogPayload), io::Error>> + '_
     {
+        // `BTreeMap::range()` panics on an inverted range; it is just empty.
+        let to = to.max(from);
+
         self.state_machine.log.range(from..to).map(|(_, log_data)| {
             let log_id = log_data.log_id.clone();
 
@@ -491,12 +498,32 @@ impl<T: Types> RaftLog<T> {
         Ok(entry.log_id.clone())
     }
 
+    /// The log index `u64::MAX` can not be stored: the index following it,
+    /// which `next_log_index()` computes when the record is applied, does not
+    /// exist.
+    fn check_log_index_limit(rec: &WALRecord<T>) -> Result<(), io::Error> {
+        let log_id = match rec {
+            WALRecord::Append(log_id, _) => log_id,
+            WALRecord::PurgeUpto(log_id) => log_id,
+            _ => return Ok(()),
+        };
+
+        if T::log_index(log_id) == u64::MAX {
+            return Err(io::Error::new(
+                io::ErrorKind::InvalidInput,
+                format!("Log index u64::MAX is not supported: {:?}", log_id),
+            ));
+        }
+        Ok(())
+    }
+
     fn append_and_apply(
         &mut self,
         rec: &WALRecord<T>,
     ) -> Result<Segment, io::Error> {
         // Refuse an invalid record before it is journalled or touches the
         // state machine: a refused write must leave no trace.
+        Self::check_log_index_limit(rec)?;
         self.state_machine.log_state.validate(rec)?;
 
         WAL::append(&mut self.wal, rec)?;
